@@ -10,19 +10,22 @@ import vlib
 import sesslib
 from vlib import ToolError, log
 
-PUPPETS_QUICK = ["rec1"]
+PUPPETS_QUICK = ["rec1", "loop2"]
 PUPPETS_ALL = ["rec1", "loop2", "gen3", "mut4"]
 
 # which verdict classes belong to which property
 OWN = {
     "C01": {"missed_breakpoint_hit", "spurious_stop", "stop_out_of_order", "stop_reason_wrong",
             "pc_not_in_execution", "place_ne_pc", "line_ne_pc_line", "command_failed", "exit_not_reported"},
-    "C02": {"residual_patch", "breakpoint_not_patched", "output_differs", "exit_status_differs"},
+    "C02": {"residual_patch", "breakpoint_not_patched", "output_differs", "exit_status_differs", "run_to_exit_failed"},
     "C03": {"pc_not_in_execution", "ran_to_exit", "went_backwards", "stopped_before_return", "wrong_caller_frame",
             "not_one_instruction", "deeper_activation_same_function", "inside_callee_past_boundary",
             "past_first_line_boundary", "inside_callee", "not_a_statement_boundary", "not_admissible",
             "silent_cut_short", "place_ne_pc", "line_ne_pc_line", "command_failed"},
     "C05": {"backtrace_truncated", "backtrace_wrong_frame"},
+    "C11": {"restart_failed", "restart_lost_or_moved_breakpoint", "restart_renumbered_breakpoints", "wrong_exit_code",
+            "panic_on_drop", "process_left_behind", "attached_process_killed", "attached_process_left_stopped",
+            "residual_patch_after_release", "debug_register_left_armed", "pc_not_in_execution", "exit_not_reported"},
 }
 STEP_CMDS = {"stepi", "step", "next", "finish"}
 RUN_CMDS = {"start", "continue"}
@@ -74,6 +77,8 @@ def gen_histories(p, cands, maxcmd, maxbps, num, seed, mix, maxbk=3):
             continue
         if mix == "bps" and any(k in STEP_CMDS for k in kinds):
             continue
+        if mix == "life" and not any(k in ("restart", "drop") for k in kinds):
+            continue
         key = json.dumps(h, sort_keys=True)
         if key in seen:
             continue
@@ -116,12 +121,21 @@ def run_and_judge(p, scripts, tag, max_batch=40):
     Returns list of (script, events, verdicts, session_info)."""
     results = []
     batch_events, spans = [], []
+    from concurrent.futures import ThreadPoolExecutor
+    par = int(__import__("os").environ.get("VERIF_PAR", "6"))
+    vlib.cargo_build("sess")
+    t0 = time.time()
+    with ThreadPoolExecutor(max_workers=par) as ex:
+        outs = list(ex.map(lambda a: sesslib.run_session(p.exe, a[1], f"{tag}-{a[0]}"), list(enumerate(scripts))))
+    log(f"[sess] {len(scripts)} sessions on {p.key} in {time.time()-t0:.1f}s")
     for n, sc in enumerate(scripts):
-        rc, err, obs = sesslib.run_session(p.exe, sc, f"{tag}-{n}")
-        evs = sesslib.to_events(p, obs)
+        rc, err, obs = outs[n]
+        evs = sesslib.to_events(p, obs, attach=bool(sc.get("attach")))
         end = [o for o in obs if o.get("ev") == "end"]
         td = [o for o in obs if o.get("ev") == "teardown"]
+        lastobs = [o for o in obs if o.get("ev") == "obs"]
         info = {"rc": rc, "stderr": err[-500:], "stdout": end[-1]["stdout"] if end else None,
+                "last_res": lastobs[-1]["res"] if lastobs else None,
                 "teardown": td[-1] if td else None, "complete": bool(end),
                 "panics": [o["res"].get("panic") for o in obs if o.get("ev") == "obs" and o["res"].get("panic")]}
         start = len(batch_events)
